@@ -127,6 +127,10 @@ class C06(core.Check):
                                     "edd": False, "ww": True})
         # one deviation from the remaining default options per emitter
         out.append({"kind": "argparse", "edd": False, "ww": True, "wrapdesc": True})
+        out.append({"kind": "argparse", "edd": False, "ww": True, "ddoc": True})
+        out.append({"kind": "class", "edd": False, "ww": True, "ddoc": True})
+        out.append({"kind": "function", "ft": "static", "inline": True, "kwonly": True, "indent": 2, "edd": False, "ww": True, "ddoc": True})
+        out.append({"kind": "function", "ft": "cls", "inline": False, "kwonly": False, "indent": 2, "edd": False, "ww": True, "ddoc": True})
         out.append({"kind": "function", "ft": "static", "inline": True, "kwonly": True, "indent": 2, "edd": False, "ww": True, "septab": True})
         out.append({"kind": "function", "ft": "self", "inline": False, "kwonly": False, "indent": 2, "edd": False, "ww": True, "septab": True})
         return out
@@ -140,7 +144,12 @@ class C06(core.Check):
         qa = [o for o in full if o["kind"] != "function" or (o["ft"], o["inline"], o["kwonly"]) in (
             ("static", True, True), ("static", False, False), ("self", True, False), ("cls", False, True))]
         qn = [dict(o, ftnone=True) for o in full if o["kind"] == "function" and o["inline"] != o["kwonly"]]
-        return core.Concat(rt.OptSpace(al.S_A(), qa), rt.OptSpace(al.S_B((2,)), full), rt.OptSpace(al.S_D(), full + qn))
+        dev = [o for o in qa if o.get("ddoc") or o.get("septab") or o.get("wrapdesc")]  # option deviations
+        plain = [o for o in qa if o not in dev]
+        # the deviations are independent of summary form and kwargs: atom-exhaustive space restricted to one of each
+        one = rt.Filtered(al.S_A(), lambda c: c["summary"] == 0 and not c["kwargs"], "first summary form, no kwargs")
+        return core.Concat(rt.OptSpace(al.S_A(), plain), rt.OptSpace(al.S_B((2,)), full), rt.OptSpace(al.S_D(), full + qn),
+                           rt.OptSpace(al.S_W(), qa), rt.OptSpace(one, dev))
 
     # -------------------------------------------------------------------------------- run
     def run_case(self, case):
@@ -153,6 +162,8 @@ class C06(core.Check):
         base = dict(("o." + k, v) for k, v in sorted(opts.items()))
         cf = dict(base, **rt.case_facts(case, atoms, ret))
         # --- emit the node (same calls as roundtrip.emit_kind, but we need the node itself)
+        if opts.get("ddoc"):
+            rt.add_default_text(ir)  # the prose already carries its 'Defaults to ...' sentence
         try:
             if kind == "class":
                 node = emit.class_(ir, class_name="ConfigClass", word_wrap=opts["ww"], emit_default_doc=opts["edd"])
@@ -214,6 +225,8 @@ class C06(core.Check):
     def file_case(self, opts, case):
         """File emission does not depend on the function options or the summary; run it once per IR and kind
         (quick: only for the first summary form)."""
+        if opts.get("ddoc") or opts.get("septab") or opts.get("wrapdesc") or opts.get("ftnone"):
+            return False
         if opts["kind"] == "function" and not (opts["ft"] == "static" and opts["indent"] == 2 and opts["inline"] and opts["kwonly"]):
             return False
         if opts["kind"] != "function" and not (opts["edd"] is False and opts["ww"] is True):
